@@ -1,6 +1,9 @@
 """C18 — WebDAV operations match a reference tree; PUT is all-or-nothing.
 
-Streams (all end-to-end against the real, sanitized lighttpd + mod_webdav built from the tree):
+Streams (dav-cond in-process, the others end-to-end against the real, sanitized lighttpd + mod_webdav built from the tree):
+  dav-cond    webdav_if_match_or_unmodified_since() + http_etag_create() called in-process (h_davcond.c) on
+              generated header values / stat records / lookup outcomes vs `ltmodel dav` ops `cond`, `etag`;
+              independent RFC 9110 verdict on grammatical values.
   dav-seq     generated method sequences over small trees; after every request the status and a snapshot of
               the collection (names, types, contents) are compared with the Lean model (`ltmodel dav`, op
               `seq`) and judged by an independent Python RFC 4918 reference (oracle).
@@ -20,7 +23,7 @@ from .. import e2e
 
 MANIFEST = dict(
     text="PARTIAL proof. Proved in Lean 4 over hand-written executable models: (1) tree model of mod_webdav's "
-         "PUT/DELETE/MKCOL/COPY/MOVE (Overwrite, Depth, Destination parsing, abstracted conditional headers): for every "
+         "PUT/DELETE/MKCOL/COPY/MOVE (Overwrite, Depth, Destination parsing, conditional headers as truth values): for every "
          "well-formed tree and every request the reference covers (not lighttpd's documented merge into an existing "
          "non-empty collection, not file-into-collection) success is answered exactly when the RFC 4918 "
          "preconditions hold (independent spec rfcPre), success has exactly the RFC effect, everything else "
@@ -29,21 +32,28 @@ MANIFEST = dict(
          "(2) PUT as a system-call automaton read both as acceptor and as code-shaped generator: under every schedule of "
          "failed calls, write sizes and client aborts every issued call is accepted, the request terminates, the target "
          "is complete-old or complete-new at every instant (crash = prefix), status class says which, no staged name "
-         "remains. Tested only (end-to-end, real sanitized server): that the C code equals these models (status + tree "
+         "remains; (3) byte-level model of webdav_if_match_or_unmodified_since + http_etag_create (sharing C15's "
+         "http_etag_matches / HTTP-date models): for all header bytes, stat records, etag flags: the truth values of (1) "
+         "are exactly the C verdict (If-None-Match absent or *), If-Match passes iff a listed strong tag equals the "
+         "current one (own tag passes, any different tag gives 412 before anything else), If-None-Match dual, * forms "
+         "iff (non-)existence, If-Unmodified-Since iff parsed instant >= mtime; witness that the 32-bit ETag hash is not "
+         "injective (guard is probabilistic), etag flags 0 ignores entity-tag headers. Tested only (end-to-end, real sanitized server): that the C code equals these models (status + tree "
          "snapshot after every request of generated sequences; strace trace validation of PUT; one injected errno or "
-         "SIGKILL at every traced system call incl. close(); client aborts; concurrent and stalled GETs), conditional "
-         "header evaluation against real ETags/dates, stat-cache freshness of reads, temp files in the upload dir",
+         "SIGKILL at every traced system call incl. close(); client aborts; concurrent and stalled GETs; in-process differential of the "
+         "conditional-header function + RFC 9110 oracle), that each handler evaluates the headers against the stat of the "
+         "resource it then changes (e2e with real ETags/dates), stat-cache freshness of reads, temp files in the upload dir",
     note="partial: tree-level model is fault-free (fault schedules exist for single PUTs only); merge / file-into-"
          "collection / Depth:0-onto-existing are modelled as implemented, outside the reference theorems (oracle keeps "
          "conservation invariants); confinement is proved w.r.t. the document root — the Destination is NOT held to the "
          "configuration (webdav.activate / is-readonly) of its own URL (upstream design, c18_confined_scope_partial + "
          "witness, dav-scope stream); only webdav.opts partial-put-copy-modify is covered for Content-Range PUT (default "
-         "config answers 400; deprecated in-place mode is non-atomic by design); locks/properties compiled out; no "
+         "config answers 400; deprecated in-place mode is non-atomic by design); locks/properties compiled out; general If-None-Match lists are proved at "
+         "function level only (tree model knows *); ETag word layout assumes little-endian + glibc st_mtim; no "
          "symlinks, EXDEV, PATH_MAX, power-loss durability. trusted: Lean kernel (+propext, Quot.sound, "
          "Classical.choice), Linux rename/linkat/O_TMPFILE semantics, strace injection, the Python strace abstraction "
          "and RFC oracle",
-    tech="Lean 4 proof over hand-written models + end-to-end differential correspondence and trace validation "
-         "(real server, strace fault/kill injection)",
+    tech="Lean 4 proof over hand-written models + in-process differential (conditional headers) + end-to-end differential "
+         "correspondence and trace validation (real server, strace fault/kill injection)",
     ref="6/C18")
 
 AUTH = b"dav.test"                 # authority used on the model's line protocol
@@ -1831,7 +1841,306 @@ def stream_scope(ctx, bd):
                         "deviations": len(devs), "wall_s": round(time.time() - t0, 2)})
 
 
+# --------------------------------------------------------------------------
+# dav-cond: in-process correspondence of webdav_if_match_or_unmodified_since() + http_etag_create()
+# (harness/inproc/h_davcond.c includes mod_webdav.c) with Model/DavCond.lean, judged by an independent
+# Python statement of RFC 9110 13.1.1 / 13.1.2 / 13.1.4 on grammatical header values.
+# --------------------------------------------------------------------------
+COND_NOW = 1790000000          # one clock for the whole stream (the RFC 850 year cache of http_date.c)
+_ITEM = rb'(?:W/)?"[!#-+\--~]*"'
+_LIST_RE = re.compile(rb'[ \t]*' + _ITEM + rb'(?:[ \t]*,[ \t,]*' + _ITEM + rb')*[ \t,]*\Z')
+_IMF_RE = re.compile(rb'(Mon|Tue|Wed|Thu|Fri|Sat|Sun), (\d\d) (Jan|Feb|Mar|Apr|May|Jun|Jul|Aug|Sep|Oct|Nov|Dec) '
+                     rb'(\d{4}) (\d\d):(\d\d):(\d\d) GMT\Z')
+_MON = [b"Jan", b"Feb", b"Mar", b"Apr", b"May", b"Jun", b"Jul", b"Aug", b"Sep", b"Oct", b"Nov", b"Dec"]
+_WD = [b"Mon", b"Tue", b"Wed", b"Thu", b"Fri", b"Sat", b"Sun"]
+
+
+def py_etag(ino, size, mtime, nsec, flags):
+    """independent rendering of http_etag_create(): rotate-xor hash of the selected 64-bit words"""
+    if flags == 0:
+        return b""
+    words = []
+    if flags & 1:
+        words.append(ino)
+    if flags & 4:
+        words.append(size)
+    if flags & 2:
+        words += [mtime, nsec]
+    data = b"".join((w % (1 << 64)).to_bytes(8, "little") for w in words)
+    h = len(data)
+    for b in data:
+        h = (((h << 5) & 0xffffffff) | (h >> 27)) ^ b
+    return b'"%d"' % h
+
+
+def _days_from_civil(y, m, d):
+    y -= m <= 2
+    era = (y if y >= 0 else y - 399) // 400
+    yoe = y - era * 400
+    doy = (153 * (m + (-3 if m > 2 else 9)) + 2) // 5 + d - 1
+    doe = yoe * 365 + yoe // 4 - yoe // 100 + doy
+    return era * 146097 + doe - 719468
+
+
+def py_imf(t):
+    days, rem = divmod(t, 86400)
+    z = days + 719468
+    era = z // 146097
+    doe = z - era * 146097
+    yoe = (doe - doe // 1460 + doe // 36524 - doe // 146096) // 365
+    y = yoe + era * 400
+    doy = doe - (365 * yoe + yoe // 4 - yoe // 100)
+    mp = (5 * doy + 2) // 153
+    d = doy - (153 * mp + 2) // 5 + 1
+    m = mp + (3 if mp < 10 else -9)
+    y += m <= 2
+    return b"%s, %02d %s %04d %02d:%02d:%02d GMT" % (_WD[(days + 3) % 7], d, _MON[m - 1], y,
+                                                    rem // 3600, rem // 60 % 60, rem % 60)
+
+
+def cond_parse_lk(tok):
+    f = tok.split(":")
+    if f[0] == "f":
+        return tuple(int(x) for x in f[1:5])
+    if f[0] == "r":
+        return (0,) + tuple(int(x) for x in f[1:4])
+    return f[0]
+
+
+def cond_opt(tok):
+    # "-": a blank value is how the header store marks a removed header (and the request parser drops empty
+    # fields), so it is "absent" for the function
+    return None if tok in ("~", "-") else C.unhx(tok)
+
+
+def cond_tags(v):
+    """(weak, opaque) pairs of a grammatical entity-tag list, "*" for the wildcard, None = not judged"""
+    if v == b"*":
+        return "*"
+    if not _LIST_RE.match(v):
+        return None
+    return [(m.group(0).startswith(b"W/"), m.group(0)[m.group(0).index(b'"'):])
+            for m in re.finditer(_ITEM, v)]
+
+
+def cond_expect(line):
+    """RFC 9110 verdict (0 / 412) for grammatical inputs, None when the oracle does not judge"""
+    t = line.split(" ")
+    flags = int(t[2])
+    im, inm, ius = cond_opt(t[3]), cond_opt(t[4]), cond_opt(t[5])
+    lk = cond_parse_lk(t[6])
+    exists = isinstance(lk, tuple)
+    if flags == 0:
+        im = inm = None          # documented: no validators without etag flags
+    cur = py_etag(*lk, flags) if exists else None
+    if im is not None:
+        tags = cond_tags(im)
+        if tags is None:
+            return None
+        if not exists:
+            return 412
+        if tags != "*" and not any(not w and o == cur for w, o in tags):
+            return 412
+    if inm is not None:
+        tags = cond_tags(inm)
+        if tags is None:
+            return None
+        if not exists:
+            if lk == "other":
+                return 412
+        elif tags == "*" or any(o == cur for _, o in tags):
+            return 412
+    if ius is not None:
+        m = _IMF_RE.match(ius)
+        if not m:
+            return None
+        if not exists:
+            return 412
+        d, y = int(m.group(2)), int(m.group(4))
+        hh, mi, ss = int(m.group(5)), int(m.group(6)), int(m.group(7))
+        mon = _MON.index(m.group(3)) + 1
+        if not (1 <= d <= 31 and hh < 24 and mi < 60 and ss < 60 and 1000 <= y):
+            return None
+        tt = _days_from_civil(y, mon, d) * 86400 + hh * 3600 + mi * 60 + ss
+        if py_imf(tt) != ius:
+            return None          # impossible day-of-month / wrong weekday: leniency of the parser not judged
+        if tt == -1 or lk[2] > tt:
+            return 412
+    return 0
+
+
+def cond_oracle(line, out):
+    t = line.split(" ")
+    if out == "bad-op" or out == "setup-failed":
+        return None if out == "setup-failed" else "harness rejected the op"
+    if t[0] == "etag":
+        exp = py_etag(int(t[2]), int(t[3]), int(t[4]), int(t[5]), int(t[1]))
+        if C.unhx(out) != exp:
+            return "http_etag_create: entity tag is not the hash of the selected stat fields"
+        return None
+    if out not in ("0", "412"):
+        return "webdav_if_match_or_unmodified_since returned neither 0 nor 412"
+    exp = cond_expect(line)
+    if exp is None or str(exp) == out:
+        return None
+    im, inm, ius = (x not in ("~", "-") for x in t[3:6])
+    what = "+".join(n for n, p in (("If-Match", im), ("If-None-Match", inm), ("If-Unmodified-Since", ius)) if p)
+    return "conditional headers (%s): RFC 9110 says %s, code answered %s" % (what or "none", exp, out)
+
+
+def cond_classify(line, out):
+    t = line.split(" ")
+    if t[0] == "etag":
+        return "etag:flags%s" % t[1]
+    lk = t[6].split(":")[0]
+    pres = lambda x: x not in ("~", "-")
+    return "cond:%s:%s%s%s:%s:%s" % (out, "M" if pres(t[3]) else "-", "N" if pres(t[4]) else "-",
+                                      "U" if pres(t[5]) else "-", lk, "e" if t[2] != "0" else "0")
+
+
+def cond_lines(ctx):
+    rng = ctx.rng
+    hx = lambda b: C.hx(b) if b else "-"
+    opt = lambda b: "~" if b is None else hx(b)
+
+    def rstat(real=False):
+        mt = rng.choice([0, 1, 784111777, 1700000000, COND_NOW - 5, 4000000000, rng.randrange(0, 4100000000)])
+        if not real and rng.random() < 0.3:
+            mt = rng.choice([-1, -2, -86400, -30610224000, 253402300799, 253402300800, -(1 << 62), (1 << 62),
+                             rng.randrange(-(1 << 40), 1 << 40)])
+        ns = rng.choice([0, 1, 999999999, 33554432, rng.randrange(0, 1000000000)])
+        if not real and rng.random() < 0.1:
+            ns = rng.choice([(1 << 64) - 1, 1 << 63, 1 << 32])
+        size = rng.choice([0, 1, 10, 14, 4096, rng.randrange(0, 1 << 20)])
+        if not real and rng.random() < 0.2:
+            size = rng.choice([(1 << 63) - 1, 1 << 32, rng.randrange(0, 1 << 63)])
+        ino = 0 if real else rng.choice([1, 1234, (1 << 64) - 1, rng.randrange(0, 1 << 64)])
+        return (ino, size, mt, ns)
+
+    def lk_tok(st, real):
+        return ("r:%d:%d:%d" % st[1:]) if real else ("f:%d:%d:%d:%d" % st)
+
+    def tag_values(cur, other):
+        """entity-tag header values around the current validator"""
+        digits = cur[1:-1] if cur else b"77"
+        cur = cur or b'"77"'
+        other = other or b'"78"'
+        return [b"*", cur, other, b"W/" + cur, b"W/" + other, other + b", " + cur, cur + b"," + other,
+                b"W/" + cur + b" , " + other, b" \t" + cur + b" ", b",, " + other + b" ,\t," + cur + b",",
+                b'"x", W/"y", ' + cur, b'"' + digits, digits + b'"', digits, cur[:-2] + b'"', b'"' + digits + b'0"',
+                cur + b"x", b"x" + cur, cur + cur, b"* ", b"*, " + other, other + b", *", b"W/*", b"W/", b"W", b'""',
+                b'"', b"", b"w/" + cur, cur + b" " + other, b'"a,b", ' + cur]
+
+    def date_values(mt):
+        vals = [b"", b"garbage", b"0", IUS_PASS.encode(), b"Thu, 01 Jan 1970 00:00:00 GMT"]
+        for d in (0, -1, 1, -86400, 86400, 3600 * 24 * 400):
+            tt = mt + d
+            if -30610224000 <= tt <= 253402300799:
+                v = py_imf(tt)
+                vals.append(v)
+                if d == 0:
+                    vals += [v[:-4], v.lower(), v + b" ", b" " + v, v[:5] + b"99" + v[7:], v.replace(b"GMT", b"UTC")]
+                    # RFC 850 and asctime spellings of the same instant (model-only: the oracle skips them)
+                    days = tt // 86400
+                    full = [b"Monday", b"Tuesday", b"Wednesday", b"Thursday", b"Friday", b"Saturday", b"Sunday"]
+                    vals.append(full[(days + 3) % 7] + b", " + v[5:7] + b"-" + v[8:11] + b"-" + v[14:16] + v[16:])
+                    vals.append(v[:3] + b" " + v[8:11] + b" " + (v[5:7] if v[5:6] != b"0" else b" " + v[6:7]) +
+                                v[16:25] + b" " + v[12:16])
+        return vals
+
+    lines = []
+    # exhaustive small scope: header kinds x lookup outcomes x flag settings
+    st, st2 = (1234, 10, 1700000000, 0), (1234, 11, 1700000001, 5)
+    for flags in (0, 2, 7):
+        cur, oth = py_etag(*st, flags), py_etag(*st2, flags)
+        tv = [None] + tag_values(cur, oth)[:8]
+        dv = [None, py_imf(st[2]), py_imf(st[2] - 1), py_imf(st[2] + 1), b"garbage"]
+        for lk in ("f:%d:%d:%d:%d" % st, "enoent", "enotdir", "other"):
+            for im in tv:
+                for inm in tv:
+                    for ius in dv:
+                        lines.append("cond %d %d %s %s %s %s" % (COND_NOW, flags, opt(im), opt(inm), opt(ius), lk))
+                        ctx.dist["cond:exhaustive"] += 1
+    # the collision of c18_etag_not_injective, on the real code
+    lines.append("cond %d 7 %s ~ ~ f:1234:14:1700000000:33554432" % (COND_NOW, hx(py_etag(1234, 10, 1700000000, 0, 7))))
+    n = 6000 if ctx.quick else 60000
+    for i in range(n):
+        kind = rng.random()
+        real = kind < 0.08
+        flags = rng.choice([0, 2, 4, 6]) if real else rng.choice([7, 7, 7, 0, 1, 2, 3, 4, 5, 6])
+        st = rstat(real)
+        if kind < 0.7:
+            lk = lk_tok(st, real)
+        else:
+            lk = rng.choice(["enoent", "enotdir", "other"])
+        cur = py_etag(*st, flags)
+        oth = py_etag(*rstat(), flags or 7)
+        tv = tag_values(cur, oth)
+
+        def pick_tag():
+            r = rng.random()
+            if r < 0.35:
+                return None
+            if r < 0.85:
+                return rng.choice(tv)
+            if r < 0.93:      # longer grammatical lists
+                items = [rng.choice([cur or b'"1"', oth, b'W/' + oth, b'"%d"' % rng.randrange(1 << 32), b'W/"z"'])
+                         for _ in range(rng.randint(2, 6))]
+                return rng.choice([b", ", b",", b" ,\t", b",,"]).join(items)
+            return bytes(rng.choice(b'"W/*, \t0123456789xy\\\x7f\xff') for _ in range(rng.randint(1, 14)))
+
+        im, inm = pick_tag(), pick_tag()
+        r = rng.random()
+        ius = None if r < 0.45 else rng.choice(date_values(st[2])) if r < 0.95 else \
+            bytes(rng.choice(b"SunMoa, 0123456789:GMT-") for _ in range(rng.randint(1, 40)))
+        lines.append("cond %d %d %s %s %s %s" % (COND_NOW, flags, opt(im), opt(inm), opt(ius), lk))
+        ctx.dist["cond:%s:%s" % ("real-file" if real and lk[0] == "r" else lk.split(":")[0],
+                                 "flags0" if flags == 0 else "etags")] += 1
+        ctx.dist["cond:hdr:" + ("M" if im is not None else "-") + ("N" if inm is not None else "-") +
+                 ("U" if ius is not None else "-")] += 1
+        for name, v in (("im", im), ("inm", inm)):
+            if v is not None:
+                ctx.dist["cond:%s:%s" % (name, "star" if v == b"*" else "grammatical-list" if cond_tags(v) else
+                                         "malformed")] += 1
+        if ius is not None:
+            ctx.dist["cond:ius:" + ("imf-fixdate" if _IMF_RE.match(ius) else "other-format-or-malformed")] += 1
+    ne = 2500 if ctx.quick else 25000
+    for i in range(ne):
+        st = rstat()
+        flags = rng.randrange(0, 8)
+        lines.append("etag %d %d %d %d %d" % ((flags,) + st))
+        ctx.dist["etag:random-stat"] += 1
+    for flags in range(8):                      # single-bit sensitivity around one record
+        base = (1234, 10, 1700000000, 0)
+        for fld in range(4):
+            for bit in range(0, 64, 3 if ctx.quick else 1):
+                v = list(base)
+                v[fld] ^= (1 << bit)
+                if fld == 2 and v[2] >= (1 << 63):
+                    v[2] -= (1 << 64)
+                lines.append("etag %d %d %d %d %d" % ((flags,) + tuple(v)))
+                ctx.dist["etag:single-bit"] += 1
+    return lines
+
+
+def stream_cond(ctx):
+    exe, err = C.build_harness("h_davcond")
+    if exe is None:
+        ctx.broken.append({"kind": "harness-build", "names": ["h_davcond"], "log": (err or "")[-3000:]})
+        return
+    lines = cond_lines(ctx)
+    judged = sum(1 for l in lines if l.startswith("etag") or cond_expect(l) is not None)
+    ctx.dist["cond:judged-by-rfc-oracle"] = judged
+    ctx.differential("dav-cond(webdav_if_match_or_unmodified_since, http_etag_create)", [exe], "dav", lines,
+                     cond_oracle, cond_classify)
+
+
 def run(ctx):
+    stream_cond(ctx)
+    if os.environ.get("LTV_C18_STREAMS") == "cond":
+        # development aid (mutation trials of the in-process stream without rebuilding the server)
+        ctx.notes.append("LTV_C18_STREAMS=cond: only the in-process dav-cond stream was run")
+        return
     bd, err = e2e.build_server()
     if bd is None:
         ctx.broken.append({"kind": "server-build", "names": ["lighttpd"], "log": (err or "")[-3000:]})
